@@ -547,8 +547,13 @@ def harness_mod(d, N, m, unwind, stub_width=True, tags=None):
         enter_code = ""
         entry_fn = "fn entry(_rs: u8) -> usize { 0 }"
     stub = "#[kani::stub(unicode_width::UnicodeWidthChar::width, crate::stub_width)]\n    " if stub_width else ""
-    T = tags or {}
+    T = dict(tags or {})
     via = d.get("via")
+    if via in ("clone", "str"):
+        # every assertion of these variants formalises C15 / C14 (the same step contract, for a cloned / string-built lexer)
+        only = "C15" if via == "clone" else "C14"
+        for k in ("tok", "span", "errkind", "errloc", "custom", "customloc", "none", "extra", "okerr", "errok", "rs", "pos", "match", "done", "lm", "logn", "log"):
+            T[k] = only
     pos_check = 'assert!(consumed(&lx.0.__iter, n) == r.pos, "[%s] input position after the call differs from the reference");' % T.get("pos", "C01 C02 C04 C05 C08 C11")
     post = ""
     symbolic_state = "let base = any_base();\n        let rs0: u8 = kani::any(); kani::assume((rs0 as usize) < %d);\n        let done0: bool = kani::any();" % len(set_names)
